@@ -1,7 +1,7 @@
 (* driver for the C07 model: reads case lines on stdin, prints "<id>\t<model output>".
    Only B lines are the model's business:
      <id> B <ops '|'> ; calls ';' (prefix '!' = the list carries a ReqId) ; requests ','
-     request = R.<namehex>.<pk>.<nargs>.<class>.<errhash> | X.<class>.<errhash> | G.<class>.<errhash>
+     request = R.<namehex>.<pk>.<nargs>.<valid 0/1>.<class>.<errhash> | X.<class>.<errhash> | G.<class>.<errhash>
    Output: the batch-operator calls the model makes, then " # ", then every request's reply kind. *)
 open Model
 open Vio
@@ -18,13 +18,13 @@ let pk_bytes s =
 
 let parse_req (id : int) (s : string) : req =
   match split_on '.' s with
-  | "R" :: name :: pk :: nargs :: cls :: eh :: _ ->
+  | "R" :: name :: pk :: nargs :: valid :: cls :: eh :: _ ->
     { rid = n_of_int id; rkind = KRedis; rname = bytes_of_hex name; rpk = pk_bytes pk;
-      rnargs = n_of_dec nargs; rbody = body cls eh }
+      rnargs = n_of_dec nargs; rbody = body cls eh; rvalid = (valid = "1") }
   | "X" :: cls :: eh :: _ ->
-    { rid = n_of_int id; rkind = KOther; rname = []; rpk = []; rnargs = N0; rbody = body cls eh }
+    { rid = n_of_int id; rkind = KOther; rname = []; rpk = []; rnargs = N0; rbody = body cls eh; rvalid = true }
   | "G" :: cls :: eh :: _ ->
-    { rid = n_of_int id; rkind = KGarbage; rname = []; rpk = []; rnargs = N0; rbody = body cls eh }
+    { rid = n_of_int id; rkind = KGarbage; rname = []; rpk = []; rnargs = N0; rbody = body cls eh; rvalid = true }
   | _ -> failwith ("bad request " ^ s)
 
 let ev_tok = function
